@@ -36,7 +36,11 @@ def main():
             out["results"]["main"] = r
         else:
             from engine import chcore, chplugin
-            info = chplugin.install(contracts=o.contracts)
+            contracts = tuple(o.contracts)
+            if os.environ.get("VERIF_CRC_EXACT"):
+                # refinement run: the uninterpreted CRC is replaced by the exact bit-vector CRC
+                contracts = tuple("crc-exact" if c == "crc" else c for c in contracts)
+            info = chplugin.install(contracts=contracts)
             out["stubs_and_models"] = {k: v for k, v in info.items() if k != "done"}
             hlib.STATE["symbolic"] = True
             ppt = o.per_path_timeout or max(10.0, o.timeout * scale / 3.0)
